@@ -110,7 +110,7 @@ Definition finish_token (name found after : str) : str * str * str :=
     | Some sym => (sym, found, found)
     | None => if eqs found (s "@charset") && starts (s " ") after
               then (charset_sym, found ++ s " ", found ++ s " ")
-              else (s "ATKEYWORD", found, found)
+              else (s "ATKEYWORD", found, unicodesub found)   (* unknown at-keyword: escapes resolved *)
     end
   else (name, found, found).
 
